@@ -230,6 +230,20 @@ def rand_can_schema(rng):
             fl.append({"name": "device", "value": {"s": rng.choice(["ecu", "bms"])}})
         impls.append({"name": sname if rng.random() < 0.6 else "Msg%d" % mi, "protocol": "can", "type": sname,
                       "fields": fl, "signals": sigs})
+        if rng.random() < 0.4:
+            # the same struct bound a second time with other per-signal options
+            fid2 = rng.randint(0, 2047)
+            while fid2 in used_ids:
+                fid2 = rng.randint(0, 2047)
+            used_ids.add(fid2)
+            alt = [s for s in sigs if rng.random() < 0.3]
+            for (n, p, w, k) in leafinfo:
+                if k in ("u", "i") and p % 8 == 0 and w in (8, 16, 32, 64) and not any(s["name"] == n for s in sigs) and rng.random() < 0.5:
+                    alt.append({"name": n, "fields": [{"name": "endianess", "value": {"s": "big"}}]})
+            fl2 = [{"name": "id", "value": {"i": fid2}}]
+            if rng.random() < 0.5:
+                fl2.append({"name": "bus", "value": {"s": rng.choice(["b1", "b2", "chassis"])}})
+            impls.append({"name": "Alt%d" % mi, "protocol": "can", "type": sname, "fields": fl2, "signals": alt})
     if rng.random() < 0.3:
         impls.append({"name": "U0", "protocol": "uart", "type": structs[-1]["name"],
                       "fields": [{"name": "id", "value": {"i": 10}}], "signals": []})
